@@ -29,6 +29,8 @@ pub enum Op {
     Skip,
     Len,
     HasMore,
+    /// `clone()` of the shared iterator (kinds that are `Clone`), then the clone is drained privately with `next_id_and_value`
+    CloneDrain,
 }
 
 impl Op {
@@ -56,6 +58,7 @@ impl Op {
             Op::Skip => "S".into(),
             Op::Len => "L".into(),
             Op::HasMore => "H".into(),
+            Op::CloneDrain => "K".into(),
         }
     }
     pub fn parse(s: &str) -> Result<Op, String> {
@@ -79,6 +82,7 @@ impl Op {
             "S" => Op::Skip,
             "L" => Op::Len,
             "H" => Op::HasMore,
+            "K" => Op::CloneDrain,
             b if b.starts_with("DC") => Op::DrainChunk(num(&b[2..])?),
             b if b.starts_with("DB") => Op::DrainBuf(num(&b[2..])?),
             b if b.starts_with("FE") => Op::ForEach(num(&b[2..])?),
